@@ -1,6 +1,7 @@
 import FtdcVerif.Lemmas.Codec
 import FtdcVerif.Lemmas.Reader
 import FtdcVerif.Model.Collector
+import FtdcVerif.Lemmas.FileE2E
 /-!
 # C03 — wire-format conformance both ways
 
@@ -212,5 +213,43 @@ example : (Tok.lit 5#64).ok ∧ (Tok.run 3).ok := by
   constructor
   · show (5#64 : I64) ≠ 0#64; decide
   · show 3 < 2 ^ 64; decide
+
+/-! ### encoder output = decoder input, at the byte level
+
+`FileE2E.wireDoc` is the outer document the collectors write - `{_id: datetime, type: int32 0, doc: metadata}` and
+`{_id: datetime, type: int32 1, data: binary subtype 0 = le32 |payload| ++ zlib payload}` in this field order - as a BSON
+tree; `fileBytes` its serialisation.  zlib is a pair of functions of which only `inflate (deflate p) = (p, clean end)`
+is assumed (`ZlibOK`). -/
+
+/-- **what the encoder writes is what the decoder reads**: any list of output documents (metadata documents and
+decodable chunks, in any order), serialised, is read by the reader model without error into exactly its chunks -
+same reference documents, same samples, same order -/
+theorem encoder_output_is_decoder_input (deflate : Bytes → Bytes) (inflate : Inflate)
+    (hz : FileE2E.ZlibOK deflate inflate) (now : I64) (outs : List OutDoc)
+    (hok : ∀ o ∈ outs, FileE2E.OutOK deflate now o) :
+    (readAll inflate (FileE2E.fileBytes deflate now outs)).err = none ∧
+    (readAll inflate (FileE2E.fileBytes deflate now outs)).chunks.map (fun c => (c.ref, c.rows)) =
+      outs.filterMap FileE2E.chunkPart :=
+  FileE2E.file_roundtrip deflate inflate hz now outs hok
+
+/-- the binary `data` field the encoder writes is accepted by the strict parser, whatever follows it -/
+theorem data_field_is_wellformed_binary (z : Bytes) (h : z.length < 2 ^ 31) : OtherOk 0x05 (FileE2E.binaryRaw z) :=
+  FileE2E.binary_otherOk z h
+
+/-- non-vacuity: the assumption about zlib is met by "stored" compression, and the hypotheses about the documents by a
+metadata document followed by a chunk -/
+example : FileE2E.ZlibOK id (fun z => some (z, true)) := fun _ => rfl
+example : ∀ o ∈ [OutDoc.metaDoc .none .nil, .chunk (.at 5#64) (.cons [97] (.int64 1#64) .nil) [1#64] []],
+    FileE2E.OutOK id 0#64 o := by
+  intro o ho
+  simp only [List.mem_cons, List.mem_nil_iff, or_false] at ho
+  rcases ho with rfl | rfl
+  · refine ⟨trivial, ?_, trivial⟩
+    simp [FileE2E.wireDoc, FileE2E.idMs, serDoc_length, serElems, serVal, le64, le32, leN, BVal.tag, keyId, keyType, FileE2E.keyDoc]
+  · refine ⟨⟨⟨⟨by intro b hb; simp at hb; omega, trivial, trivial⟩,
+        by simp [serDoc_length, serElems, serVal, le64, leN, BVal.tag], by simp [NoTs, NoTsVal],
+        by simp [extractDoc, extractVal]⟩, by simp [vals, extractDoc, extractVal], by simp, by simp⟩, ?_, trivial⟩
+    simp [FileE2E.wireDoc, FileE2E.idMs, FileE2E.binaryRaw, serDoc_length, serElems, serVal, le64, le32, leN, BVal.tag, keyId, keyType,
+      keyData, payloadOf, rleEnc, rleEncAux, column, deltas]
 
 end Ftdc.Props.C03
